@@ -121,3 +121,90 @@ impl<D: StorageData> VStorage<D> {
         self.0.rename(name)
     }
 }
+
+/// Public delegating wrapper around the crate private `MultiMapStorage`
+/// with `u64` keys and values in a memory storage. Exposes the slot array
+/// (state, key, value per slot) for algorithm level comparison with a model.
+pub struct VMultiMap {
+    storage: Storage<crate::MemoryStorage>,
+    map: crate::collections::multi_map::MultiMapStorage<u64, u64, crate::MemoryStorage>,
+}
+
+impl VMultiMap {
+    pub fn new() -> Result<Self, DbError> {
+        let mut storage = Storage::new("vmultimap")?;
+        let map = crate::collections::multi_map::MultiMapStorage::new(&mut storage)?;
+        Ok(Self { storage, map })
+    }
+
+    pub fn capacity(&self) -> u64 {
+        self.map.capacity()
+    }
+
+    pub fn len(&self) -> u64 {
+        self.map.len()
+    }
+
+    pub fn insert(&mut self, key: u64, value: u64) -> Result<(), DbError> {
+        self.map.insert(&mut self.storage, &key, &value)
+    }
+
+    /// `only` = `None`: the predicate accepts every value (what `MapImpl::insert`
+    /// passes); `Some(x)`: the predicate accepts the values equal to `x`.
+    pub fn insert_or_replace(
+        &mut self,
+        key: u64,
+        only: Option<u64>,
+        value: u64,
+    ) -> Result<Option<u64>, DbError> {
+        self.map.insert_or_replace(
+            &mut self.storage,
+            &key,
+            |v| only.is_none_or(|x| *v == x),
+            &value,
+        )
+    }
+
+    pub fn remove_key(&mut self, key: u64) -> Result<(), DbError> {
+        self.map.remove_key(&mut self.storage, &key)
+    }
+
+    pub fn remove_value(&mut self, key: u64, value: u64) -> Result<(), DbError> {
+        self.map.remove_value(&mut self.storage, &key, &value)
+    }
+
+    pub fn reserve(&mut self, capacity: u64) -> Result<(), DbError> {
+        self.map.reserve(&mut self.storage, capacity)
+    }
+
+    pub fn value(&self, key: u64) -> Result<Option<u64>, DbError> {
+        self.map.value(&self.storage, &key)
+    }
+
+    pub fn values(&self, key: u64) -> Result<Vec<u64>, DbError> {
+        self.map.values(&self.storage, &key)
+    }
+
+    /// (state, key, value) of every slot; state 0 = empty, 1 = valid, 2 = deleted.
+    pub fn slots(&self) -> Result<Vec<(u8, u64, u64)>, DbError> {
+        use crate::collections::map::MapData;
+        use crate::collections::map::MapValueState;
+
+        let mut slots = Vec::with_capacity(self.map.capacity() as usize);
+
+        for i in 0..self.map.capacity() {
+            let state = match self.map.data.state(&self.storage, i)? {
+                MapValueState::Empty => 0,
+                MapValueState::Valid => 1,
+                MapValueState::Deleted => 2,
+            };
+            slots.push((
+                state,
+                self.map.data.key(&self.storage, i)?,
+                self.map.data.value(&self.storage, i)?,
+            ));
+        }
+
+        Ok(slots)
+    }
+}
